@@ -154,7 +154,20 @@ class Fn:
     def ids_named(self, name):
         if self._defs is None:
             self._scan_defs()
-        return [i for i, nm in self._names.items() if nm == name]
+        ids = [i for i, nm in self._names.items() if nm == name]
+        if not ids:
+            cur = getattr(self, "_renames", {}).get(name)
+            if cur:
+                ids = [i for i, nm in self._names.items() if nm == cur]
+        return ids
+
+    def cur(self, name):
+        """Current spelling of a local the rule tables know as `name` (renamed-local tolerance)."""
+        if self._defs is None:
+            self._scan_defs()
+        if name in self._names.values():
+            return name
+        return getattr(self, "_renames", {}).get(name, name)
 
     def calls(self):
         """All (point, call-node) pairs, each call once (at its own element)."""
